@@ -329,8 +329,13 @@ inline int choose(int n, const char* label = nullptr) { return vmcrt::choose(n, 
 inline void check(bool c, const char* props, const char* key, const char* msg) { vmcrt::check(c, props, key, msg); }
 inline void check(bool c, const char* props, const char* key, const std::string& msg) { if (!c) vmcrt::fail(props, key, msg.c_str()); }
 inline void note(const std::string& s) { vmcrt::note(s); }
+// ThreadSanitizer flavour: a harness that observes a completion through its (uninstrumented) monitor variables and then
+// acts on the library object synchronises with the completion signal, as any real consumer does (future.get(), a
+// condition variable ...): receivers call publish() when they record a signal, wait_until() acquires when it returns.
+inline char g_wait_tok;
+inline void publish() { VMC_TSAN_REL(&g_wait_tok); }
 template <class P>
-inline void wait_until(P p) { std::function<bool()> f(p); vmcrt::wait_until(f); }
+inline void wait_until(P p) { std::function<bool()> f(p); vmcrt::wait_until(f); VMC_TSAN_ACQ(&g_wait_tok); }
 inline long long now() { return vmcrt::now_ns(); }
 inline void advance(std::chrono::nanoseconds d) { vmcrt::advance_ns(d.count()); }
 inline int self() { return vmcrt::self(); }
